@@ -17,7 +17,7 @@ type GBOpt struct {
 	ContigOnly  bool // allow CONTIG-only records
 }
 
-var gbWords = []string{"Escherichia", "coli", "phage", "protein", "synthetic", "construct", "plasmid", "vector", "complete", "genome", "strain", "K-12", "hypothetical", "DNA", "sequence", "of", "the", "and", "region", "alpha", "beta", "3'", "(partial)", "cds,", "isolate:", "x=1", "a/b", "[v2]"}
+var gbWords = []string{"SOURCE", "TITLE", "ORIGIN", "REFERENCE", "FEATURES", "Escherichia", "coli", "phage", "protein", "synthetic", "construct", "plasmid", "vector", "complete", "genome", "strain", "K-12", "hypothetical", "DNA", "sequence", "of", "the", "and", "region", "alpha", "beta", "3'", "(partial)", "cds,", "isolate:", "x=1", "a/b", "[v2]"}
 
 func words(r *rand.Rand, n int) string {
 	ss := make([]string, n)
@@ -164,7 +164,7 @@ func RandGenBank(r *rand.Rand, o GBOpt, labelPrefix string) seqio.GenBank {
 		ref := seqio.Reference{Number: i + 1}
 		if r.Intn(6) == 0 {
 			// records with many references: two- and three-digit numbers.
-			ref.Number = []int{10, 24, 99, 100, 101, 250, 996}[r.Intn(7)] + i
+			ref.Number = []int{10, 24, 99, 100, 101, 250, 999, 1000, 12345}[r.Intn(9)] + i
 		}
 		if L > 0 && r.Intn(3) != 0 {
 			a := r.Intn(L)
